@@ -38,6 +38,10 @@ type Prog struct {
 	cg    *callgraph.Graph
 	all   map[*ssa.Function]bool
 
+	pfuncs      []*ssa.Function
+	callSites   map[*ssa.Function][]ssa.Instruction
+	fieldStores map[*types.Var][]ssa.Value
+
 	LoadS, SSAS, CGS float64
 	funcDecls        map[*types.Func]*ast.FuncDecl
 	declPkg          map[*types.Func]*packages.Package
